@@ -70,6 +70,13 @@ def gen_case(rng):
         terms.append(dict(pos=4 + i, ins=ie, outs=oe, isz=isz * nch,
                           osz=osz * nch, stride_in=isz, stride_out=osz,
                           nch=nch, fmmu=rng.random() < 0.5, kwform=kwform))
+    if rng.random() < 0.35:
+        # a second terminal of the same type: another object of the very
+        # same terminal class (and channel Struct class)
+        src = rng.randrange(nt)
+        terms.append(dict(terms[src], pos=4 + nt, clone_of=src,
+                          fmmu=rng.random() < 0.5))
+        nt += 1
     links = []
     for _ in range(rng.randint(2, 8)):
         ti = rng.randrange(nt)
@@ -97,7 +104,13 @@ def gen_case(rng):
 def build(case, ec):
     """terminal classes with channel Structs; returns (terminals, vars)"""
     ts = []
+    classes = []
     for d in case["terms"]:
+        if d.get("clone_of") is not None:
+            T = classes[d["clone_of"]]
+            classes.append(T)
+            ts.append(make_terminal_object(T, d, ec))
+            continue
         ns = {}
         cns = {}
         for smname, ents in (("IN", d["ins"]), ("OUT", d["outs"])):
@@ -120,6 +133,13 @@ def build(case, ec):
                 ns[f"ch{c}"] = Ch(d["stride_in"] * c, d["stride_out"] * c,
                                   0x100 * c)
         T = type("VfT", (EBPFTerminal,), ns)
+        classes.append(T)
+        ts.append(make_terminal_object(T, d, ec))
+    return ts
+
+
+def make_terminal_object(T, d, ec):
+    if True:
         t = T(ec)
         t.position = d["pos"]
         t.name = f"T{d['pos']}"
@@ -138,8 +158,7 @@ def build(case, ec):
                 for k, (f, byte, bit) in enumerate(ents):
                     t.pdos[base + k, 1] = (
                         sm, byte + stride * c, bit if f == "bit" else f)
-        ts.append(t)
-    return ts
+        return t
 
 
 def make_device(case, ts):
@@ -315,6 +334,15 @@ def check_case(case, res):
                     t = tsf[l["term"]]
                     sm = SyncManager.IN if l["sm"] == "IN" \
                         else SyncManager.OUT
+                    if t not in sgf.pdo_assign:
+                        res.violation(
+                            "unexplained:terminal-not-in-the-group",
+                            f"the device uses variables of {t.name}, but "
+                            f"the group's frame has no region for that "
+                            f"terminal (regions for "
+                            f"{[x.name for x in sgf.pdo_assign]})",
+                            case=case)
+                        return
                     if sm not in sgf.pdo_assign[t]:
                         reads[i] = None
                         continue
